@@ -382,6 +382,12 @@ func c16Run(c *core.Ctx) *core.Result {
 	r.AddSet("configs", fmt.Sprintf("dest=%s sub=%v inc=%v exc=%v", kind, sub != "", len(inc) > 0, len(exc) > 0))
 
 	naive, nerr := refs.SelectNaive(items, inc, exc)
+	// the source root as a caller may spell it: the patterns are relative to
+	// the copied source whatever the spelling
+	srcRootArg := srcDir + core.Pick(core.NewRand(core.Mix(c.Seed, "C16-srcroot-spelling", c.Index)), []string{"", "", "", "/", "/.", "//", "/./"})
+	if srcRootArg != srcDir {
+		r.Count("source_roots_spelled_unclean", 1)
+	}
 	var cerr error
 	if unpriv {
 		// the filtered walk decides whether this user can process the tree
@@ -389,7 +395,7 @@ func c16Run(c *core.Ctx) *core.Result {
 		var werr error
 		if err := asUser(1234, 1234, func() {
 			werr = fsutil.Walk(context.Background(), walkRoot, &fsutil.FilterOpt{IncludePatterns: inc, ExcludePatterns: exc}, func(p string, fi os.FileInfo, err error) error { return err })
-			cerr = fs.Copy(context.Background(), srcDir, srcArg, dstDir, "/", opts...)
+			cerr = fs.Copy(context.Background(), srcRootArg, srcArg, dstDir, "/", opts...)
 		}); err != nil {
 			r.Inconclusive = "cannot switch uid: " + err.Error()
 			return r
@@ -403,7 +409,7 @@ func c16Run(c *core.Ctx) *core.Result {
 			r.Count("unprivileged_copies_judged", 1)
 		}
 	} else {
-		cerr = fs.Copy(context.Background(), srcDir, srcArg, dstDir, "/", opts...)
+		cerr = fs.Copy(context.Background(), srcRootArg, srcArg, dstDir, "/", opts...)
 	}
 	r.Count("copies", 1)
 	if nerr != nil {
